@@ -9,6 +9,7 @@ CONSTANTS
   Extra <- Race4
   GFirst = TRUE
   SelDet = FALSE
+  LogOn = TRUE
 VIEW View
 INVARIANT NotBad
 CHECK_DEADLOCK TRUE
